@@ -474,6 +474,8 @@ def crafted_values(f):
                 out += [b, b - 1, b + 1, str(b)]
                 if isinstance(b, int):
                     out += [str(b - 1), str(b + 1)]
+                if k in ("int", "port") and abs(b) < 2 ** 50:
+                    out += [b + 0.5, b - 0.5, float(b), b + 0.999, b - 0.001]       # floats whose truncation lies on the other side of the bound
                 if k == "float":
                     out += [b - 0.5, b + 0.5]
         out += [0, -0.0] if (f.get("min") == 0 or f.get("max") == 0) else []
@@ -492,6 +494,8 @@ def crafted_values(f):
                         out.append(c.swapcase() + "A" * max(m - 2, 0) + c.swapcase())
         for ch in f.get("choices") or []:
             out += [ch, ch.upper(), " " + ch + " ", ch.swapcase()]
+    if k in ("url", "hostname", "ipv4addr", "ipv4net") and not any(f.get(o) not in (None, [], "", False) for o in _STR_OPTS):
+        out += [x for x in scalar_pool(f) if isinstance(x, str)]           # syntax: every spelling of the pool, on every route
     if k == "ipv4net":
         for n in (f.get("min_prefix"), f.get("max_prefix")):
             if isinstance(n, int):
@@ -505,12 +509,15 @@ _PLAIN_INT = re.compile(r"\A[ \t]*[+-]?[0-9]+[ \t]*\Z")
 
 def independent_normal(f, v):
     """the normal form of v for field f where the declaration alone fixes it, computed without the library: (True, want) or (False, None).
-    Only the unambiguous cases: a whole number (or plain ASCII decimal text of one) given to an integer field is that exact integer."""
+    Only the unambiguous cases: a whole number (or plain ASCII decimal text of one) given to an integer field is that exact integer,
+    a finite float its truncation — then tested against the declared bounds."""
     if f.get("k") in ("int", "port") and not f.get("custom"):
         if type(v) is int:
             return True, v
         if isinstance(v, str) and _PLAIN_INT.match(v):
             return True, int(v)
+        if type(v) is float and v == v and abs(v) != math.inf:
+            return True, int(v)                   # the whole number a finite float is truncated to: int(value)
     return False, None
 
 
@@ -728,6 +735,15 @@ def satisfies(f, v):
         if f.get("max_prefix") is not None and n > f["max_prefix"]:
             return False
         return None if any(f.get(o) not in (None, [], "") for o in _STR_OPTS) else True
+    if k == "url":
+        # "a valid URL that contains a valid scheme": once what urllib discards is discarded (tabs and line breaks anywhere, control
+        # characters and blanks in front), the text begins with ALPHA *( ALPHA / DIGIT / "+" / "-" / "." ) ":"  (RFC 3986, 3.1)
+        if not isinstance(v, str):
+            return False
+        t = v.replace("\t", "").replace("\r", "").replace("\n", "").lstrip("".join(chr(c) for c in range(0x21)))
+        if re.match(r"[A-Za-z][A-Za-z0-9+.\-]*:", t) is None:
+            return False
+        return None
     if k in ("hostname", "ipv4addr"):
         # whatever else such a name has to be, it is text without line breaks, control characters or blanks at its ends
         # (URLs are left to urllib: it drops tabs and line breaks while parsing, which is its documented behaviour)
